@@ -529,6 +529,7 @@ impl Check for CmdCheck {
             cov.bump("timer_histories");
             return crate::cap::time::run_scn(t, cov, self.id);
         }
+        crate::cmd::ops::LARGE_VALUES.store(matches!(self.id, "C09" | "C02" | "C05"), std::sync::atomic::Ordering::Relaxed);
         if let Some(t) = &s.task_fault {
             cov.bump("task_fault_histories");
             return run_task_fault(self.id, t, cov);
